@@ -1,4 +1,5 @@
 import PeptVerif.Lemmas.Mass
+import PeptVerif.Model.MassEnv
 /-!
 C02 — peptide mass and m/z equal the sum of their physical parts; agreement with an independent NIST reference.
 Property theorems only (helper lemmas live in `Lemmas/Mass.lean`).
@@ -253,5 +254,24 @@ theorem mass_precision_bound (env : Env) (a : Annotation) (o : Opts) (p : Nat) (
   show (mass env a { o with precision := none }).map _ = _
   rw [hx]
   rfl
+
+
+/-! ### the rule parser instantiated -/
+
+open Pept.Mass in
+/-- `mass_eq_spec_partial` with the concrete model of `parse_static_mods` (C12's `Static.parseStaticMods`) in place of the
+parameter: global rules are read by the modelled parser, and `inDomain` then asks that this parser accepts them -/
+theorem mass_eq_spec_concrete (res : ModVal → Res) (a : Annotation) (o : Opts)
+    (hlab : o.isotopeMods = none) (hlab' : a.isotope = none)
+    (hadd : o.adducts = none) (hadd' : a.adducts = none)
+    (hdom : inDomain (Env.concrete res) a o.ion o.mono none = true) :
+    mass (Env.concrete res) a o = .ok (roundOpt (specMassT lib (Env.concrete res) a o.ion
+      ((effCharge a o).getD 0) o.mono o.isotope o.loss none) o.precision) :=
+  mass_eq_spec_partial (Env.concrete res) a o hlab hlab' hadd hadd' hdom
+
+-- non-vacuity: `<[+10][1.5]^2@T,N-Term>PEPTIDTE`, every value resolving to a number
+example : inDomain (Env.concrete fun _ => ⟨.ok 10, .ok 10, .ok (some 10), .error .valueError⟩)
+    { seq := "PEPTIDTE".toList, static := some [⟨.str "[+10][1.5]^2@T,N-Term".toList, 1⟩] } Mass.ionP true none = true := by
+  decide +kernel
 
 end Pept.C02
